@@ -31,6 +31,11 @@ EXPLANATION = (
     'occurrence, drops container entries named in either override set and assembles pre + kept + post; __iadd__ prepends a batch in its own order. '
     'R4 the routing table of extend_preserving_lflags: exactly the -l/-L arguments outside always_dedup_args take the direct route. '
     'R5 a method that selects `X = self.copy() if flag else self` (to_native) applies every change through X, none to self by name; '
+    'R5 caller side (typestate consumed-after-native): when such a method changes the list through X, a call that does not request the copy consumes its receiver; '
+    'on no CFG path is the consumed object read or rendered again before the name is rebound (parameters rendered without a copy are summarised by fixpoint, so handing '
+    'the object to NinjaBuildElement.add_item consumes it); judged where the source declares the class (annotation, T.cast, assert isinstance, family constructor, or a '
+    'compiler_args-style factory on a receiver with a declared class, also one call deep through a function returning the factory result of its parameter) and the class cone '
+    'contains a consuming renderer; objects of a declared non-consuming class are discharged; '
     'R6 __add__/__radd__ build a fresh object from the left operand and add the right one with += (no raw splice, operand order kept); no returning path hands back '
     'an operand itself (the sum must not alias self or the other list); the addition may be left out only on a path that has tested the other operand empty. '
     'objects derived from self (copy, +) are built with type(self), never a literal family class that has subclasses; '
@@ -51,6 +56,9 @@ EXPLANATION = (
     'and a negative lookahead; the full-match NFA of sa.rx does not model per-alternative anchors, so membership of lib*.so.N.N.N "as used" cannot be stated exactly - seed 7/2); '
     'whether the backends add each argument source as an increment of its own (`commands += project + global` merges two -I batches into one - seed 7/1; '
     'the pinned Compiler.get_build_link_args does the same for link arguments, so no source-level condition separates the two). '
+    'Not decided (R5 caller side): renderings on objects whose family class the source does not declare (listed in the evidence notes: e.g. the vala and single-compile sites), '
+    'aliases of a consumed object under another name, objects stored in attributes/containers and read from another function, and whether a particular list contains the two '
+    'libraries that make the second rendering differ (value-level). '
     'Out of scope by design (not armed): the constructor and list + CompilerArgs take the initial list verbatim (copy() depends on it), '
     'extend_preserving_lflags reorders within a batch, append_direct/extend_direct arguments are never re-de-duplicated and are queued per element '
     '(a per-element route selected by a test on the element is not judged by R9).')
@@ -58,8 +66,9 @@ ASSUMPTIONS = [
     'collections.abc.MutableSequence mixin methods (pop, remove, reverse, clear, index, count, __contains__, __reversed__) are built from the abstract methods as documented',
     'list/deque/set methods (append, appendleft, extend, extendleft, add, clear, slice assignment) behave as documented',
     'objects reaching a parameter annotated or tested as CompilerArgs may hold pending pre/post entries (any caller may have used +=)',
+    'a name declared with class K may hold an object of any class of the package derived from K (bases read by their last name); a call expression used as receiver/argument is a temporary',
 ]
-TECHNIQUE = ('typestate (clean/dirty per receiver) as a may-dataflow over the CFG with method summaries by fixpoint; who-may-write on the queues with path enumeration; '
+TECHNIQUE = ('typestate (clean/dirty per receiver; consumed-after-native per local) as a may-dataflow over the CFG with method and parameter summaries by fixpoint; class cones from declared types; who-may-write on the queues with path enumeration; '
              'MRO lookup against the documented abc mixins; path enumeration; decision tables over canonical atoms '
              'compared on every world; set comparison of folded constant tables; regex-language facts (membership, empty intersection)')
 
@@ -609,7 +618,7 @@ def _consume_scan(mods: T.List[T.Tuple[T.Optional[Module], T.Dict[str, T.Any]]],
 
     summ: T.Dict[T.Tuple[int, str], T.Set[T.Tuple[str, int]]] = {}      # (module index, qualname) -> consumed params
     notes: T.List[str] = []
-    counts = {'direct': 0, 'via_param': 0, 'temporary': 0, 'copied': 0, 'unknown_arg': 0, 'unknown_class': 0, 'never': 0}
+    counts = {'direct': 0, 'via_param': 0, 'temporary': 0, 'copied': 0, 'unknown_arg': 0, 'unknown_class': 0, 'never': 0, 'render_calls': 0}
     unknown_why: T.List[str] = []
     hits: T.List[T.Tuple[T.Optional[Module], cons.Hit]] = []
 
@@ -673,6 +682,8 @@ def _consume_scan(mods: T.List[T.Tuple[T.Optional[Module], T.Dict[str, T.Any]]],
         for q, fn in fns.items():
             view = None
             for call, obj, how, direct in events(mi, q, fn):
+                if direct:
+                    counts['render_calls'] += 1
                 if how == 'copy':
                     counts['copied'] += 1
                     continue
@@ -748,7 +759,7 @@ def _r5_callers(ctx: RuleCtx, fam: lazy.Family, consuming: T.List['cons.Spec'], 
             continue
         seen.add(key)
         sp_where = ', '.join(s.where for s in specs.values())
-        ctx.violation(m, h.site.fn_q, f'{norm(h.site.call)[:120]} ; {norm(h.read)[:160]}',
+        ctx.violation(m, h.site.fn_q, f'{cons.shape(h.site.call, h.site.obj)[:120]} ; {cons.shape(h.read, h.site.obj)[:160]}',
                       f'{h.site.fn_q}: `{norm(h.site.obj)}` is {h.site.how} ({sp_where} changes its receiver when no copy is requested), and is read again '
                       f'{h.what}: `{short(h.read, 90)}` - the second reader sees the arguments the first rendering put in (e.g. a second --start-group/--end-group pair)',
                       h.read)
@@ -765,8 +776,8 @@ def _r5_callers(ctx: RuleCtx, fam: lazy.Family, consuming: T.List['cons.Spec'], 
              f'{counts["unknown_class"]} objects whose family class the source does not declare')
     for w in counts['unknown_why'][:12]:      # type: ignore[index]
         ctx.note('class not declared: ' + w)
-    ctx.floor('renderings without a copy that are judged (consuming or declared non-consuming class)', n_sites + counts['never'], 3)
-    ctx.floor('functions with a consumed parameter', n_summ, 1)
+    ctx.note(f'functions with a consumed parameter: {n_summ}')
+    ctx.floor('call sites of the rendering method read in the package', counts['render_calls'], 8)
     if notes:
         raise Undecided('consumed-after-native: ' + '; '.join(notes[:4]))
 
